@@ -926,6 +926,12 @@ func (c *Conn) advanceFrame() (int, error) {
 
 	if frameType == continuationFrame || frameType == TextMessage || frameType == BinaryMessage {
 
+		if frameType != continuationFrame {
+			// First frame of a message: frames of a previous message that
+			// were skipped because the application did not read them do
+			// not count toward this message.
+			c.readLength = 0
+		}
 		c.readLength += c.readRemaining
 		// Don't allow readLength to overflow in the presence of a large readRemaining
 		// counter.
